@@ -32,6 +32,8 @@ type Gen struct {
 	boundN       int
 	specErrors   []string
 	b2sAxiom     bool
+	topTr        *Trans
+	touchedAll   map[string]Sort // every key ever written, across dry runs
 }
 
 type GenOpts struct {
@@ -55,6 +57,7 @@ type loopInfo struct {
 	phiVals map[*ssa.Phi]Val
 	headSt  *State // havocked state at header (for decreases)
 	decr0   Term
+	mod     map[string]bool
 }
 
 type deferRec struct {
@@ -89,6 +92,9 @@ type Trans struct {
 	freeVars map[*ssa.FreeVar]Val
 	entryRC  Term
 	ordCache map[ssa.Instruction]int
+	frameTs  []target
+	frameAll bool
+	frameDone bool
 }
 
 func (g *Gen) newTrans(fn *ssa.Function, top bool) *Trans {
@@ -329,6 +335,10 @@ func (tr *Trans) runBlocks(order []*ssa.BasicBlock, entrySt *State, entryRC Term
 				}
 				tr.checkInvariant(li, st, rc, entryPhis, "entry")
 				mod, all := tr.loopModSet(li, st, rc)
+				li.mod = mod
+				if tr.g.dry == 0 && !all {
+					tr.loopFrame(li, mod, st, rc, "entry", false)
+				}
 				hs := tr.g.havocKeys(st, mod, all)
 				li.phiVals = map[*ssa.Phi]Val{}
 				for _, in := range b.Instrs {
@@ -339,6 +349,9 @@ func (tr *Trans) runBlocks(order []*ssa.BasicBlock, entrySt *State, entryRC Term
 					}
 				}
 				st = hs
+				if !all {
+					tr.loopFrame(li, mod, st, rc, "assume", true)
+				}
 				tr.assumeInvariant(li, st, rc)
 				li.headSt = st.clone()
 			} else {
@@ -378,6 +391,9 @@ func (tr *Trans) runBlocks(order []*ssa.BasicBlock, entrySt *State, entryRC Term
 					}
 				}
 				tr.checkInvariant(l2, tr.st, c, phis, "preserved")
+				if l2.mod != nil {
+					tr.loopFrame(l2, l2.mod, tr.st, c, "preserved", false)
+				}
 			}
 		}
 	}
@@ -456,7 +472,7 @@ func (tr *Trans) rpoOrder() []*ssa.BasicBlock {
 }
 
 func (tr *Trans) loopEnv(li *loopInfo, st *State, phis map[*ssa.Phi]Val) *Env {
-	env := tr.newEnv(tr.pre, st)
+	env := tr.topEnv(st)
 	// loop variables: bind source names of phis (and of allocs referenced by name)
 	for phi, v := range phis {
 		if n := phi.Comment; n != "" {
@@ -593,7 +609,14 @@ func (tr *Trans) assumeTyped(v Val, st *State, rc Term) {
 				}
 			case *types.Pointer, *types.Map, *types.Chan:
 				tr.e.assume(rc, and(lt(x, getWM())))
-			case *types.Interface, *types.Signature:
+			case *types.Interface:
+				// type-system fact: the dynamic type of an interface value implements the interface
+				for _, tn := range sortedKeys(tr.g.specs.TypeLits) {
+					if ct := tr.g.ld.lookupType(tn); ct != nil && !types.Implements(ct, u) {
+						tr.e.assume(rc, not(eq(tr.dynType(x), intT(int64(tr.g.typeID(ct))))))
+					}
+				}
+			case *types.Signature:
 			}
 		}
 	}
